@@ -114,7 +114,7 @@ Section Flat.
      (index.py:454) and only afterwards _extract_labels casts them to the dtype (index.py:471, 353):
      `cast` = the labels after NumPy's conversion *)
   Definition M_index_init_dtype (raw cast : list C) : res index :=
-    match am_build raw with
+    match am_build (if gen_init_dtype_casts_first then cast else raw) with
     | Ok m => Ok (mk_index cast (Some m))
     | Err _ => Err gen_init_dup_error
     end.
@@ -129,7 +129,7 @@ Section Flat.
      an int is bounds-checked by NumPy with negative wrap-around (and the KEY, not the element, is
      returned); a bool is a NumPy mask scalar and never raises; None is np.newaxis and never raises
      (the key None is returned: not a position at all); anything else is an IndexError -> KeyError *)
-  Definition positions_getitem (n : Z) (k : key) : res Z :=
+  Definition positions_getitem_raw (n : Z) (k : key) : res Z :=
     match snd k with
     | KInt => match to_Z (fst k) with
               | Some z => if (- n <=? z) && (z <? n) then Ok z else Err "KeyError"
@@ -139,6 +139,17 @@ Section Flat.
     | KNone => Err "NotAPosition"
     | KOther => Err "KeyError"
     end.
+
+  (* the same with the element key validated against [0, n) before it is returned (the repair proposed
+     for finding C02-auto-unvalidated-key); which of the two the code does is re-read from the source *)
+  Definition positions_getitem_valid (n : Z) (k : key) : res Z :=
+    match key_int k with
+    | Some z => if (0 <=? z) && (z <? n) then Ok z else Err "KeyError"
+    | None => Err "KeyError"
+    end.
+
+  Definition positions_getitem (n : Z) (k : key) : res Z :=
+    if gen_auto_lookup_validates then positions_getitem_valid n k else positions_getitem_raw n k.
 
   (* Index.loc_to_iloc, element key.  index.py:982-1008 (no map: self._positions[key], so a negative
      integer in [-n, 0) is answered) and LocMap.loc_to_iloc index.py:262-265 (map lookup) *)
@@ -414,7 +425,7 @@ Arguments OpAppend {C}. Arguments OpExtend {C}. Arguments OpTouch {C}.
 Arguments memb {C}. Arguments nodupb {C}. Arguments index_of {C}. Arguments S_lookup {C}.
 Arguments S_contains {C}. Arguments S_observe {C}. Arguments S_index {C}.
 Arguments am_get {C}. Arguments am_add {C}. Arguments am_extend {C}. Arguments am_build {C}.
-Arguments int_typed {C}. Arguments positions_getitem {C}. Arguments M_index_init {C}. Arguments M_index_init_dtype {C}. Arguments M_index_dtype {C}. Arguments M_index_auto {C}. Arguments key_int {C}.
+Arguments int_typed {C}. Arguments positions_getitem {C}. Arguments positions_getitem_raw {C}. Arguments positions_getitem_valid {C}. Arguments M_index_init {C}. Arguments M_index_init_dtype {C}. Arguments M_index_dtype {C}. Arguments M_index_auto {C}. Arguments key_int {C}.
 Arguments M_loc_to_iloc {C}. Arguments M_contains {C}. Arguments M_observe {C}.
 Arguments M_index {C}. Arguments M_auto {C}. Arguments S_auto {C}.
 Arguments M_loc_to_iloc_list {C}. Arguments S_lookup_list {C}. Arguments loc_slice {C}.
